@@ -24,6 +24,7 @@ type wsConn struct {
 	request     *http.Request
 	token       json.RawMessage
 	tid         string
+	tokenSeq    uint // Number of token changes that invalidated access
 	serv        *Service
 	subs        map[string]*Subscription
 	disposing   bool
@@ -430,7 +431,15 @@ func (c *wsConn) call(rid, action string, params interface{}, cb func(result jso
 		sub = NewSubscription(c, rid, nil)
 	}
 
+	tokenSeq := c.tokenSeq
 	sub.CanCall(action, func(err error) {
+		// The temporary subscription of a call on a resource that is not
+		// subscribed is not reached by a token change. If there was one
+		// while waiting for access, the access is checked again.
+		if !ok && tokenSeq != c.tokenSeq && !c.disposing {
+			c.call(rid, action, params, cb)
+			return
+		}
 		if err != nil {
 			cb(nil, "", err)
 			return
@@ -682,6 +691,7 @@ func (c *wsConn) setToken(token json.RawMessage, tid string) {
 	}
 
 	c.token = token
+	c.tokenSeq++
 	for _, sub := range c.subs {
 		sub.reaccess(nil)
 	}
